@@ -22,10 +22,16 @@ Oracle (independent of the model), written from the property text:
 import c02_masked as CM
 import c02_masked_tie as CT
 import heap_common as H
+import heap_shapes as HS
+import protect_tie as PT
 
 PID = "C02"
-LEAN_TARGETS = ["SpecVerif.Props.C02", "SpecVerif.Props.C02Masked"]
-AUDIT = [("SpecVerif.Props.C02", "SpecVerif.Props.C02"), ("SpecVerif.Props.C02Masked", "SpecVerif.Props.C02Masked")]
+LEAN_TARGETS = ["SpecVerif.Props.C02", "SpecVerif.Props.C02Masked", "SpecVerif.Props.Protect"]
+AUDIT = [
+    ("SpecVerif.Props.C02", "SpecVerif.Props.C02"),
+    ("SpecVerif.Props.C02Masked", "SpecVerif.Props.C02Masked"),
+    ("SpecVerif.Props.Protect", "SpecVerif.Props.Protect"),
+]
 DRIVER = "Drivers/Heap.lean"
 REQUIRED_THEOREMS = [
     "SpecVerif.Props.C02.deepcopy_disjoint",
@@ -42,6 +48,13 @@ REQUIRED_THEOREMS = [
     "SpecVerif.Props.C02Masked.read_writes_only_receiver",
     "SpecVerif.Props.C02Masked.derive_disjoint_nodnc",
     "SpecVerif.Props.C02Masked.derive_insulated",
+    # `protect_via_deepcopy` over every kind of value (Model/Protect.lean): tuples, named tuples, frozensets, plain
+    # objects, bytearrays, containers of containers
+    "SpecVerif.Props.Protect.protect_shares_no_mutable",
+    "SpecVerif.Props.Protect.protect_mutable_new",
+    "SpecVerif.Props.Protect.protect_tuple_recreated",
+    "SpecVerif.Props.Protect.protect_immutable_identity",
+    "SpecVerif.Props.Protect.protect_same_content",
 ]
 RULE = (
     "case = class table (see C01; 30% of the collection/nested attributes do_not_copy, 10% a do_not_copy=True nested "
@@ -59,7 +72,19 @@ RULE = (
     "receiver was derived x generation 0-3 x holder (itself, attribute / list item / dict value of an outer instance) x "
     "56 derivation routes; (c) masked tie (harness/c02_masked_tie.py): generated tables with 2-5 masked attributes and "
     "histories of 7-15 operations (getattr, assignment, deletion, with_/reset_ in place or not, deepcopy) compared line by "
-    "line with SpecVerif.C02Masked through Drivers/C02Masked.lean and judged by the oracle of (b)."
+    "line with SpecVerif.C02Masked through Drivers/C02Masked.lean and judged by the oracle of (b); (d) class families of "
+    "harness/heap_shapes.py judged by judge_c02 (from the property text: no common mutable object through __dict__s and "
+    "through the attribute interface -- tuples, named tuples, frozensets, plain objects, bytearrays and keyed-container "
+    "storage included --, do_not_copy slot carried by identity, in-place probes invisible through the other side): 33 "
+    "value kinds (tuples of lists / dicts / tuples / spec instances, str-list pair, named tuple, frozenset of plain "
+    "objects, plain object, bytearray, containers of containers and of tuples, keyed containers, Any kinds) x storage "
+    "slots x class shape x invalidation x preparer hooks handing out registered pre-existing objects x state (size, "
+    "materialisation, generation 0-3, aliasing, uncopyable member, outer holders) x 267 copy-on-write routes + 34 outer "
+    "routes; quick: every 8th scenario of the systematic part + 220 random, second half after the prelude of earlier "
+    "(also failed) calls; thorough: all + 6000; (e) protect tie (harness/protect_tie.py): histories of "
+    "`protect_via_deepcopy` calls on values built from terms (every container kind around every kind of member, chains "
+    "of three, aliasing / cycles) compared line by line with SpecVerif.Protect through Drivers/Protect.lean.  The second "
+    "half of the heap-grammar histories runs after the same prelude."
 )
 ASSUMPTIONS = [
     "transforms and preparers return new objects, scalars or their argument (the quantifier's 'transforms that return "
@@ -98,16 +123,28 @@ def setup():
 
 def gen_cases(tier, rng):
     if tier == "search":
+        k = 0
         while True:
-            yield H.gen_case(rng, PROFILE)
+            k += 1
+            # every 5th case of the search stream is a scenario of the class families outside the heap grammar, every 7th
+            # a history of `protect_via_deepcopy` calls (harness/protect_tie.py; judged by its oracle)
+            if k % 7 == 0:
+                yield PT.random_case(rng)
+                continue
+            yield HS.random_case(PID, rng) if k % 5 == 0 else H.gen_case(rng, PROFILE)
     n = 260 if tier == "quick" else 5500
-    for _ in range(n):
-        yield H.gen_case(rng, PROFILE)
+    for i in range(n):
+        case = H.gen_case(rng, PROFILE)
+        if i >= n // 2:
+            # the second half of the histories runs after the prelude of earlier -- also FAILED -- calls in this process
+            # (heap_shapes.run_prelude): the model has no process-level state, the code must not have any either
+            case["prelude"] = True
+        yield case
 
 
 def _special(case):
     """Cases of the `extra` sections (replayable through `oracle`), not histories of the heap grammar."""
-    return "masked" in case or "masked_tie" in case or "extra" in case
+    return "masked" in case or "masked_tie" in case or "extra" in case or "protect_tie" in case or HS.is_case(case)
 
 
 def model_lines(case):
@@ -115,7 +152,10 @@ def model_lines(case):
 
 
 def real_lines(case):
-    return [] if _special(case) else H.real_lines(case)
+    if _special(case):
+        return []
+    HS.ensure_prelude(case)
+    return H.real_lines(case)
 
 
 def shrink(case, at=None):
@@ -123,10 +163,14 @@ def shrink(case, at=None):
 
 
 def nontrivial(case, real):
+    if HS.is_case(case):
+        return [("shapes", H.dumps(case["sc"]))]
     return [] if _special(case) else H.nontrivial_keys(case, real)
 
 
 def tags(case, real):
+    if HS.is_case(case):
+        return ["shapes:" + HS.route_kind(case["sc"]["route"])]
     return [] if _special(case) else H.op_tags(case, real)
 
 
@@ -159,6 +203,11 @@ def oracle(case):
         return CT.oracle(case["masked_tie"])
     if "extra" in case:
         return []
+    if "protect_tie" in case:  # a history of `protect_via_deepcopy` calls (harness/protect_tie.py)
+        return PT.oracle(case["protect_tie"])
+    if HS.is_case(case):  # a scenario of the class families outside the heap grammar (harness/heap_shapes.py: judge_c02)
+        return HS.judge_case(case)
+    HS.ensure_prelude(case)
     violations = []
     handed = {}  # ids of objects handed in by the caller so far (kept alive)
 
@@ -479,9 +528,28 @@ def _extra_masked_tie(tier, rng):
     }
 
 
+def _extra_protect_tie(tier, rng):
+    """Real `protect_via_deepcopy` vs `SpecVerif.Protect.protect` through Drivers/Protect.lean (harness/protect_tie.py)."""
+    import common
+
+    r = PT.run(tier, rng, common.run_driver)
+    return {
+        "evaluations": r["lines"],
+        "nontrivial": r["keys"],
+        "violations": r["violations"][:20],
+        "disagreements": r["disagreements"][:20],
+        "info": {
+            "protect_tie_histories": r["cases"],
+            "protect_tie_lines_compared": r["lines"],
+            "protect_tie_disagreeing_histories": len(r["disagreements"]),
+            "protect_tie_histogram": dict(sorted(r["tags"].items())),
+        },
+    }
+
+
 def extra(tier, rng):
     out = {"evaluations": 0, "nontrivial": [], "violations": [], "disagreements": [], "info": {}}
-    for part in (_extra_keyed, _extra_masked, _extra_masked_tie):
+    for part in (_extra_keyed, _extra_masked, _extra_masked_tie, lambda t, r: HS.extra_section(PID, t, r), _extra_protect_tie):
         r = part(tier, rng)
         out["evaluations"] += r["evaluations"]
         for k in ("nontrivial", "violations", "disagreements"):
@@ -493,7 +561,7 @@ def extra(tier, rng):
 KNOWN_MATCHERS = {}
 
 MANIFEST_ENTRY = {
-    "level_text": "Lean 4 proof, over the heap model with object identities, that deepcopy (with memo, attribute- and class-level do_not_copy, __post_copy__) returns an object from which no pre-existing object is reachable except through do_not_copy attributes, which are carried by identity, and that an in-place write to an object a value cannot reach is invisible through that value (so mutating the copy or the original is never visible through the other); and that the result of every copy-on-write helper, the constructor and deepcopy is a new object from which only objects handed in as arguments or held by do_not_copy attributes are reachable among the pre-existing ones (for callbacks returning scalars or their argument); tied to /repo on every run by executing generated histories (aliasing inside the receiver, every helper, then in-place mutations of either side) on the real spec_classes and on the model and comparing contents and the alias pattern of all live objects after every step. Second Lean model (SpecVerif.C02Masked) for instances whose __dict__ also holds the cache/override of a spec_property, the local override of an Alias or the backing field of a property: the descriptor protocols (get with cache fill, set, delete) and mutate_attr / with_<a> / reset_<a> through them; proved for every table, descriptor assignment and heap that the result of deepcopy / with_<a> / reset_<a> and everything it shows through getattr afterwards reaches only do_not_copy values and the call's argument among the pre-existing objects, that deriving writes no pre-existing object and that getattr writes only its own receiver; tied to /repo per run through Drivers/C02Masked.lean.",
+    "level_text": "Lean 4 proof, over the heap model with object identities, that deepcopy (with memo, attribute- and class-level do_not_copy, __post_copy__) returns an object from which no pre-existing object is reachable except through do_not_copy attributes, which are carried by identity, and that an in-place write to an object a value cannot reach is invisible through that value (so mutating the copy or the original is never visible through the other); and that the result of every copy-on-write helper, the constructor and deepcopy is a new object from which only objects handed in as arguments or held by do_not_copy attributes are reachable among the pre-existing ones (for callbacks returning scalars or their argument); tied to /repo on every run by executing generated histories (aliasing inside the receiver, every helper, then in-place mutations of either side) on the real spec_classes and on the model and comparing contents and the alias pattern of all live objects after every step. Second Lean model (SpecVerif.C02Masked) for instances whose __dict__ also holds the cache/override of a spec_property, the local override of an Alias or the backing field of a property: the descriptor protocols (get with cache fill, set, delete) and mutate_attr / with_<a> / reset_<a> through them; proved for every table, descriptor assignment and heap that the result of deepcopy / with_<a> / reset_<a> and everything it shows through getattr afterwards reaches only do_not_copy values and the call's argument among the pre-existing objects, that deriving writes no pre-existing object and that getattr writes only its own receiver; tied to /repo per run through Drivers/C02Masked.lean. Third Lean model (SpecVerif.Protect) of protect_via_deepcopy / copy.deepcopy over tuples, named tuples, frozensets, sets, dicts, lists, plain objects, bytearrays, modules and uncopyable objects nested to any depth (memo; a tuple is returned as it is iff none of its members needed copying): proved for every value that no mutable object of the copy is an object of the original wherever it sits, that a tuple in which a mutable object occurs is re-created, that the copy has the content of the original; tied to /repo per run through Drivers/Protect.lean.",
     "level_note": "Trusted: Lean kernel; axioms propext/Classical.choice/Quot.sound only; the hand-written heap model and the correspondence harness; callbacks return new objects, scalars or their argument. Sharing of caller-provided arguments, do_not_copy attributes and frozen nested instances is allowed by the property. The theorems are about the model; the per-run correspondence (alias pattern) ties them to the code.",
     "technique": "Lean 4 reachability/provenance theorems over a hand-written heap model; differential correspondence of alias patterns against the real helpers",
 }
